@@ -130,13 +130,21 @@ func errKind(r goat.Result) string {
 	return first
 }
 
+// scriptPkgs are importable script packages: two of them share the package name (their import paths differ), one has
+// state that later statements change and read.
+var scriptPkgs = map[string]string{
+	"geom/util/u.go":   "package util\n\nvar Calls int\n\nfunc Area(a int, b int) int {\n\tCalls++\n\treturn a*b + Calls\n}\n",
+	"text/util/u.go":   "package util\n\nfunc Pad(s string) string {\n\treturn \"[\" + s + \"]\"\n}\n",
+	"lib/counter/c.go": "package counter\n\nvar N = 10\n\nfunc Next() int {\n\tN++\n\treturn N\n}\n",
+}
+
 func run(c *Case, chunks [][]string) outcome {
 	vm := goat.New()
 	imports := map[string]string{}
 	o := outcome{Globals: map[string]string{}}
 	var budget int64 = 20_000_000
 	for _, ch := range chunks {
-		r := vm.Eval(nil, strings.Join(ch, "\n")+"\n", budget, goatlang.WithEvalImports(imports))
+		r := vm.Eval(goat.FS(scriptPkgs), strings.Join(ch, "\n")+"\n", budget, goatlang.WithEvalImports(imports))
 		o.Stdout += r.Stdout
 		if r.Budget {
 			o.Budget = true
@@ -275,6 +283,28 @@ func genUnits(rt *rapid.T) ([]string, []string) {
 		extra := []string{"func replf(a int) int {\n\treturn a + 1\n}", "rv1 := replf(10)", "func replf(a int) int {\n\treturn a * 100\n}", "rv2 := replf(10)"}
 		units = append(units[:pos], append(extra, units[pos:]...)...)
 		globals = append(globals, "rv1", "rv2")
+	}
+	// script packages imported between the other statements: each import comes before its uses, anywhere else they may
+	// be cut apart; two of the packages have the same package name and are told apart by their aliases
+	if rx.Chance(rt, "scriptimports", 1, 2) {
+		seqs := [][]string{
+			{"import gu \"geom/util\"", "ra1 := gu.Area(3, 4)", "ra2 := gu.Area(2, gu.Calls)"},
+			{"import tu \"text/util\"", "rp1 := tu.Pad(\"x\")", "rp2 := tu.Pad(rp1)"},
+			{"import \"lib/counter\"", "rc1 := counter.Next()", "rc2 := counter.Next() + counter.N"},
+		}
+		for _, seq := range seqs {
+			if !rx.Chance(rt, "usepkg", 2, 3) {
+				continue
+			}
+			pos := 0
+			for _, u := range seq {
+				pos = rx.Range(rt, "pkgpos", pos, len(units))
+				units = append(units[:pos], append([]string{u}, units[pos:]...)...)
+				pos++
+			}
+			ev.R().Class("script_package_imported_and_used_across_statements")
+		}
+		globals = append(globals, "ra1", "ra2", "rp1", "rp2", "rc1", "rc2")
 	}
 	units = append(units, rx.Pick(rt, "lastexpr", "bi", "bs", "bf + 1.5", "len(bs) + bi", "bb"))
 	return units, globals
